@@ -787,6 +787,14 @@ func (vc *VC) execRange(st *State, s *ast.RangeStmt, label string) *State {
 		}
 	}
 	env := map[string]Term{}
+	// range over a map: ghost set of the keys visited so far (visible to invariants as _visited)
+	var visitedObj types.Object
+	var rangeKey Term
+	if kind == "map" {
+		visitedObj = types.NewVar(token.NoPos, nil, "_visited", types.Typ[types.Int])
+		st.vars[visitedObj] = zeroOfSort(arrSort(sortOfType(mapT.Key()), SBool))
+		env["_visited"] = st.vars[visitedObj]
+	}
 	setEnv := func(s *State) {
 		if indexed {
 			env["_i"] = s.vars[idxObj]
@@ -804,6 +812,9 @@ func (vc *VC) execRange(st *State, s *ast.RangeStmt, label string) *State {
 		ef.locals[valObj] = true
 	}
 	ef.locals[idxObj] = true
+	if visitedObj != nil {
+		ef.locals[visitedObj] = true
+	}
 	h := vc.havocEffects(st, ef, s)
 	var exitState *State
 	body := h
@@ -830,6 +841,9 @@ func (vc *VC) execRange(st *State, s *ast.RangeStmt, label string) *State {
 			vc.declareLocal(body, valObj, v)
 		}
 	} else {
+		if visitedObj != nil {
+			env["_visited"] = h.vars[visitedObj]
+		}
 		for _, inv := range invs {
 			h.assume(vc.tagHyp(inv.Label, vc.specClause(h, vc.entryState(), inv, env, s.Pos())))
 		}
@@ -841,6 +855,13 @@ func (vc *VC) execRange(st *State, s *ast.RangeStmt, label string) *State {
 			k := vc.fresh("rangekey", ks)
 			v, ok := vc.mapLookup(body, x, k, vs)
 			body.assume(ok)
+			// each key is visited once; the loop ends when every key has been visited
+			vis := h.vars[visitedObj]
+			body.assume(Not(Select(vis, k)))
+			rangeKey = k
+			dom := Select(vc.mapDom(exitState, ks, vs), x)
+			exitState.assume(Term{fmt.Sprintf("(forall ((k %s)) (! (=> (and (not (= %s 0)) (select %s k)) (select %s k)) :pattern ((select %s k))))", ks, x.S, dom.S, vis.S, dom.S), SBool})
+			delete(exitState.vars, visitedObj)
 			if keyObj != nil {
 				vc.declareLocal(body, keyObj, k)
 			}
@@ -869,6 +890,10 @@ func (vc *VC) execRange(st *State, s *ast.RangeStmt, label string) *State {
 				back.vars[keyObj] = back.vars[idxObj]
 			}
 			env["_i"] = back.vars[idxObj]
+		}
+		if visitedObj != nil {
+			back.vars[visitedObj] = Store(h.vars[visitedObj], rangeKey, TTrue)
+			env["_visited"] = back.vars[visitedObj]
 		}
 		for _, inv := range invs {
 			vc.assertClause(back, vc.entryState(), inv, fmt.Sprintf("%s#loop%d-keep[%s]", vc.fn.Key, ord, inv.Label), "loop-keep", s.Pos(), env)
